@@ -1,7 +1,7 @@
 (* C08_Check.v — correspondence checker for C08 (soft delete). *)
 From Verif Require Export Base Sem Where_Model.
 From Verif Require Import Where_Render.
-From Verif Require Export C08_Hist C08_Assoc.
+From Verif Require Export C08_Hist C08_Assoc C08_Write.
 
 Record case := mk_case {
   c_atoms : atom_table;
@@ -26,7 +26,12 @@ Record case := mk_case {
   h_init : hstate; h_ops : list hop;
   h_obs : list (list Z); h_states : list hstate;
   (* the kids of the association fixture: (id, age) of every live row of the case *)
-  a_kids : list (Z * Z)
+  a_kids : list (Z * Z);
+  (* the chain's Update through a Model value / Delete of a value naming records by key (C08_Write):
+     the atom of the key condition (0 = not run), the WHERE texts of the two statements, the rows
+     that changed with and without the marked copies *)
+  c_wkey : nat; o_upd_where : string; o_del_where : string;
+  o_kupd : list Z; n_kupd : list Z; o_kdel : list Z; n_kdel : list Z
 }.
 
 Definition tok_eqb (a b : tok) : bool :=
@@ -154,5 +159,33 @@ Definition assoc_model_agrees (c : case) : bool :=
     && list_eqb zlist_eqb (firstn unscoped_len (n_uassoc c)) (unscoped_paths false (a_kids c))
   end.
 
+(* ---- write statements with key conditions (C08_Write): token structure of both WHERE texts, the
+   hypotheses of the theorems, and the rows SQLite changed = the meaning of the parsed text ---- *)
+Definition write_model_agrees (c : case) : bool :=
+  match c_wkey c with
+  | O => true
+  | k =>
+    match build_chain (c_atoms c) (c_chain c), lex (c_atoms c) (o_upd_where c), lex (c_atoms c) (o_del_where c) with
+    | Some exprs, Some ut, Some dt =>
+      let keys := [XAtom k (k + 50)] in
+      let ue := update_exprs (c_live c) (c_live c + 50) exprs keys in
+      let de := delete_exprs (c_live c) (c_live c + 50) exprs keys in
+      ok_where ue && ok_where de
+      && list_eqb tok_eqb (where_tokens ue) ut && list_eqb tok_eqb (where_tokens de) dt
+      && match parse ut, parse dt with
+         | Some eu, Some ed =>
+           zlist_eqb (rows_where (c_rows c) (fun v => evE v eu)) (o_kupd c)
+           && zlist_eqb (rows_where (c_rows c) (fun v => evE v ed)) (o_kdel c)
+         | _, _ => false
+         end
+    | _, _, _ => false
+    end
+  end.
+(* the property: the keyed writes change what they change without the marked copies, live rows only *)
+Definition write_spec_holds (c : case) : bool :=
+  zlist_eqb (o_kupd c) (n_kupd c) && subset (o_kupd c) (c_live_ids c)
+  && zlist_eqb (o_kdel c) (n_kdel c) && subset (o_kdel c) (c_live_ids c).
+
 Definition check_case (c : case) : N :=
-  code_of (model_agrees c && hist_model_agrees c && assoc_model_agrees c) (spec_holds c && hist_spec_holds c).
+  code_of (model_agrees c && hist_model_agrees c && assoc_model_agrees c && write_model_agrees c)
+          (spec_holds c && hist_spec_holds c && write_spec_holds c).
